@@ -23,12 +23,20 @@ theorem wf_if {csz : Nat} {cond : Node} {t e : List P} : (P.ifThen csz cond t e)
 theorem wf_loop {csz : Nat} {cond : Node} {body : List P} : (P.loop csz cond body).wf = true ↔ P.wfs body = true := by
   simp [P.wf]
 
+theorem wf_loopX {csz : Nat} {cond : Node} {b1 : List P} {csz2 : Nat} {cond2 : Node} {t b2 : List P} :
+    (P.loopX csz cond b1 csz2 cond2 t b2).wf = true ↔ P.wfs b1 = true ∧ P.wfs t = true ∧ P.wfs b2 = true ∧ P.noIfs b2 = true := by
+  simp [P.wf, and_assoc]
+
 theorem sizes_cons (x : P) (ps : List P) : P.sizes (x :: ps) = x.size + P.sizes ps := by simp [P.sizes]
 
 theorem size_if (csz : Nat) (cond : Node) (t e : List P) :
     (P.ifThen csz cond t e).size = csz + 3 + P.sizes t + (if e.isEmpty then 0 else 3 + P.sizes e) := by simp [P.size]
 
 theorem size_loop (csz : Nat) (cond : Node) (body : List P) : (P.loop csz cond body).size = csz + 3 + P.sizes body + 2 := by
+  simp [P.size]
+
+theorem size_loopX (csz : Nat) (cond : Node) (b1 : List P) (csz2 : Nat) (cond2 : Node) (t b2 : List P) :
+    (P.loopX csz cond b1 csz2 cond2 t b2).size = csz + 3 + (P.sizes b1 + (csz2 + 3 + P.sizes t + 3) + P.sizes b2) + 2 := by
   simp [P.size]
 
 /-! ### equations of `emit` / `tgtC` -/
@@ -53,6 +61,17 @@ theorem emit1_loop_done (o : Int) (csz : Nat) (cond : Node) (body : List P) :
 theorem emit1_loop_raw (o : Int) (csz : Nat) (cond : Node) (body : List P) :
     emit1 false o (.loop csz cond body) = [.stmt (o + csz + 3 + P.sizes body) (rawLoop o (o + csz + 3 + P.sizes body)
       (jzStmt (o + csz) cond (o + csz + 3 + P.sizes body + 2) :: emit false (o + csz + 3) body))] := by simp [emit1]
+theorem emit1_loopX_raw (o : Int) (csz : Nat) (cond : Node) (b1 : List P) (csz2 : Nat) (cond2 : Node) (t b2 : List P) :
+    emit1 false o (.loopX csz cond b1 csz2 cond2 t b2) =
+      [.stmt (o + csz + 3 + (P.sizes b1 + (csz2 + 3 + P.sizes t + 3) + P.sizes b2))
+        (rawLoop o (o + csz + 3 + (P.sizes b1 + (csz2 + 3 + P.sizes t + 3) + P.sizes b2))
+          (jzStmt (o + csz) cond (o + csz + 3 + (P.sizes b1 + (csz2 + 3 + P.sizes t + 3) + P.sizes b2) + 2) ::
+            (emit false (o + csz + 3) b1 ++
+              jzStmt (o + csz + 3 + P.sizes b1 + csz2) cond2 (o + csz + 3 + P.sizes b1 + csz2 + 3 + P.sizes t + 3) ::
+                (emit false (o + csz + 3 + P.sizes b1 + csz2 + 3) t ++
+                  jumpStmt (o + csz + 3 + P.sizes b1 + csz2 + 3 + P.sizes t)
+                      (o + csz + 3 + (P.sizes b1 + (csz2 + 3 + P.sizes t + 3) + P.sizes b2) + 2) ::
+                    emit false (o + csz + 3 + P.sizes b1 + csz2 + 3 + P.sizes t + 3) b2))))] := by simp [emit1]
 theorem tgtC_cons (o : Int) (x : P) (ps : List P) : tgtC o (x :: ps) = tgtC1 o x ++ tgtC (o + x.size) ps := by simp only [tgtC]
 theorem tgtC_nil (o : Int) : tgtC o [] = [] := by simp only [tgtC]
 theorem size_if_noelse (csz : Nat) (cond : Node) (t : List P) : (P.ifThen csz cond t []).size = csz + 3 + P.sizes t := by
@@ -111,6 +130,12 @@ theorem emit1_inv (ld : Bool) (o : Int) : (x : P) → x.wf = true → AllS (Emit
     refine ⟨by omega, by omega, by simp [Node.cls, rawLoop], ?_, ?_⟩
     · intro jp cd a e'; simp [rawLoop] at e'
     · intro jp ja e'; simp [rawLoop] at e'
+  | .loopX csz cond b1 csz2 cond2 t b2, _ => by
+    simp only [emit1, size_loopX]
+    refine AllS.cons ?_ AllS.nil
+    refine ⟨by omega, by omega, by simp [Node.cls, rawLoop], ?_, ?_⟩
+    · intro jp cd a e'; simp [rawLoop] at e'
+    · intro jp ja e'; simp [rawLoop] at e'
 theorem emit_inv (ld : Bool) (o : Int) : (ps : List P) → P.wfs ps = true → AllS (EmitInv o (o + P.sizes ps)) (emit ld o ps)
   | [], _ => by simp only [emit]; exact AllS.nil
   | x :: ps, h => by
@@ -135,6 +160,7 @@ theorem tgtC1_ne_nil (o : Int) : (x : P) → x.nst ≠ 0 → tgtC1 o x ≠ []
   | .skip _, h => by simp [P.nst] at h
   | .ifThen .., _ => by simp [tgtC1]
   | .loop .., _ => by simp [tgtC1]
+  | .loopX .., _ => by simp [tgtC1]
 
 theorem tgtC_ne_nil (o : Int) : (ps : List P) → P.nsts ps ≠ 0 → tgtC o ps ≠ []
   | [], h => by simp [P.nsts] at h
@@ -165,6 +191,10 @@ theorem tgtC1_inv (o : Int) : (x : P) → x.wf = true → AllS (TgtInv o (o + x.
     simp only [tgtC1, size_loop]
     refine AllS.cons ⟨by omega, by omega, by simp [Node.cls, rawLoop], by simp [Node.cls, rawLoop], ?_⟩ AllS.nil
     intro q cd a' b' e'; simp [rawLoop] at e'
+  | .loopX csz cond b1 csz2 cond2 t b2, _ => by
+    simp only [tgtC1, size_loopX]
+    refine AllS.cons ⟨by omega, by omega, by simp [Node.cls, rawLoop], by simp [Node.cls, rawLoop], ?_⟩ AllS.nil
+    intro q cd a' b' e'; simp [rawLoop] at e'
 
 theorem tgtC_inv (o : Int) : (ps : List P) → P.wfs ps = true → AllS (TgtInv o (o + P.sizes ps)) (tgtC o ps)
   | [], _ => by simp only [tgtC]; exact AllS.nil
@@ -186,6 +216,7 @@ theorem emit1_length (ld : Bool) (o : Int) : (x : P) → (emit1 ld o x).length =
     simp only [emit1, P.nst]
     split <;> simp [h1, h2] <;> (try omega)
   | .loop .. => by simp [emit1, P.nst]
+  | .loopX .. => by simp [emit1, P.nst]
 theorem emit_length (ld : Bool) (o : Int) : (ps : List P) → (emit ld o ps).length = P.nsts ps
   | [] => by simp [emit, P.nsts]
   | x :: ps => by simp [emit, P.nsts, emit1_length ld o x, emit_length ld (o + x.size) ps]
@@ -207,6 +238,7 @@ theorem tgtC_nil_of_nsts (o : Int) : (ps : List P) → P.nsts ps = 0 → tgtC o 
     | simple s => simp [P.nst] at h
     | ifThen csz cond t e => simp [P.nst] at h
     | loop csz cond b => simp [P.nst] at h
+    | loopX csz cond b1 csz2 cond2 t b2 => simp [P.nst] at h
 
 /-- a statement whose code is not a jump -/
 def EndsPlain (l : List Node) : Prop := ∃ l' p c, l = l' ++ [Node.stmt p c] ∧ c.cls ≠ .jump
@@ -245,6 +277,9 @@ theorem emit1_last (ld : Bool) (o : Int) : (x : P) → x.wf = true → x.nst ≠
   | .loop .., _, _ => by
     simp only [emit1]
     exact EndsPlain.single _ _ (by simp [rawLoop, Node.cls])
+  | .loopX .., _, _ => by
+    simp only [emit1]
+    exact EndsPlain.single _ _ (by simp [rawLoop, Node.cls])
 theorem emit_last (ld : Bool) (o : Int) : (ps : List P) → P.wfs ps = true → P.nsts ps ≠ 0 → EndsPlain (emit ld o ps)
   | [], _, h => by simp [P.nsts] at h
   | x :: ps, h, hn => by
@@ -267,6 +302,9 @@ theorem tgtC1_last (o : Int) : (x : P) → x.wf = true → x.nst ≠ 0 → EndsP
     simp only [tgtC1]
     exact EndsPlain.single _ _ (by simp [Node.cls])
   | .loop .., _, _ => by
+    simp only [tgtC1]
+    exact EndsPlain.single _ _ (by simp [rawLoop, Node.cls])
+  | .loopX .., _, _ => by
     simp only [tgtC1]
     exact EndsPlain.single _ _ (by simp [rawLoop, Node.cls])
 
@@ -314,6 +352,12 @@ theorem emit1_depth (o : Int) : (x : P) → x.wf = true → cdDepthL (emit1 fals
   | .loop csz cond body, h => by
     have h1 := emit_depth (o + csz + 3) body (wf_loop.1 h)
     simp [emit1, cdDepthL, P.depth, rawLoop, cdDepth, cdDepth_jzStmt, h1]
+  | .loopX csz cond b1 csz2 cond2 t b2, h => by
+    obtain ⟨hb1, ht, hb2, _⟩ := wf_loopX.1 h
+    have h1 := emit_depth (o + csz + 3) b1 hb1
+    have h2 := emit_depth (o + csz + 3 + P.sizes b1 + csz2 + 3) t ht
+    have h3 := emit_depth (o + csz + 3 + P.sizes b1 + csz2 + 3 + P.sizes t + 3) b2 hb2
+    simp [emit1, cdDepthL, P.depth, rawLoop, cdDepth, cdDepth_jzStmt, cdDepth_jumpStmt, cdDepthL_append, h1, h2, h3]
 theorem emit_depth (o : Int) : (ps : List P) → P.wfs ps = true → cdDepthL (emit false o ps) = P.depths ps
   | [], _ => by simp [emit, cdDepthL, P.depths]
   | x :: ps, h => by
